@@ -555,6 +555,17 @@ fn single_avp_sweep(o: &mut Out, r: &mut Rng, d: &GDict, probes: &dyn Fn(&mut Ou
 fn rand_history(o: &mut Out, r: &mut Rng, d: &GDict, probes: &dyn Fn(&mut Out), by_name: bool) {
     // new + a mixture of additions (explicit, by name, decode-then-extend, group re-wrapping), probes interleaved
     let mut ls = vec![];
+    // now and then an encoding that fails comes first on the same thread (a value the wire cannot carry stops the encoder
+    // half way): nothing of it may show in what is encoded afterwards
+    if r.chance(1, 8) {
+        if let Some(tdef) = d.by_type(T_TIME).first() {
+            let mut bad = header(r);
+            bad.avps.push(avp(r, d, 0, 1));
+            bad.avps.push(GA { code: tdef.code, vendor: tdef.vendor, flags: 0x40, v: GV::Time(*r.pick(&[-2208988801i64, 2085978496, -5000000000]), 0) });
+            bad.ops(r, &mut ls);
+            ls.push("enc".into());
+        }
+    }
     let mut m = header(r);
     ls.push(format!("new {} {} {} {} {}", m.cmd, m.app, m.flags, m.hbh, m.e2e));
     ls.push("clear".into());
@@ -635,6 +646,10 @@ fn rand_history(o: &mut Out, r: &mut Rng, d: &GDict, probes: &dyn Fn(&mut Out), 
         if r.chance(1, 3) {
             probes(o);
         }
+    }
+    // ... or a writer that fails after a few octets (a peer that went away), just before the probes
+    if r.chance(1, 6) {
+        o.line(&format!("encw {} {} 0 {}", r.below(64), r.below(3), if r.chance(1, 4) { "zero" } else { "err" }));
     }
     probes(o);
 }
@@ -1614,8 +1629,33 @@ fn gen_c06(o: &mut Out, r: &mut Rng, d: &GDict, tier: &str) {
         let n = 1 + r.below(4) as usize;
         streams.push((0..n).map(|_| message(r, d, 3, 2)).collect());
     }
-    for ms in &streams {
-        let frames: Vec<Vec<u8>> = ms.iter().map(|m| m.encode(&mut Some(r))).collect();
+    let mut frame_lists: Vec<Vec<Vec<u8>>> = streams.iter().map(|ms| ms.iter().map(|m| m.encode(&mut Some(r))).collect()).collect();
+    // frames that are well framed but refused by the message decoder (a command code or an application the library does
+    // not know, an AVP the dictionary does not know, text that is not UTF-8), between frames that are fine: the refusal
+    // costs exactly the refused frame, the frames behind it are read as if nothing had happened
+    {
+        let good: Vec<Vec<u8>> = small.iter().take(3).map(|m| m.encode(&mut None)).collect();
+        let with_avp = small.iter().find(|m| !m.avps.is_empty()).unwrap_or(&small[0]).encode(&mut None);
+        let mut refused: Vec<Vec<u8>> = vec![];
+        let mut f = with_avp.clone();
+        f[5..8].copy_from_slice(&[0, 1, 0x2c]);
+        f[8..12].copy_from_slice(&[1, 0, 0, 0]);
+        refused.push(f);
+        let mut f = with_avp.clone();
+        f[8..12].copy_from_slice(&[0xff, 0xff, 0xff, 0xf0]);
+        refused.push(f);
+        if with_avp.len() > 28 {
+            let mut f = with_avp.clone();
+            f[20..24].copy_from_slice(&[0x00, 0xff, 0xff, 0xf0]);
+            refused.push(f);
+        }
+        for (k, x) in refused.iter().enumerate() {
+            frame_lists.push(vec![good[k % good.len()].clone(), x.clone(), good[(k + 1) % good.len()].clone()]);
+            frame_lists.push(vec![x.clone(), good[k % good.len()].clone()]);
+            frame_lists.push(vec![x.clone(), x.clone(), good[(k + 2) % good.len()].clone(), x.clone()]);
+        }
+    }
+    for frames in &frame_lists {
         let stream: Vec<u8> = frames.concat();
         let n = frames.len();
         let lens: Vec<String> = frames.iter().map(|f| f.len().to_string()).collect();
@@ -1657,7 +1697,7 @@ fn gen_c06(o: &mut Out, r: &mut Rng, d: &GDict, tier: &str) {
         // placement of up to two pauses between the events (exhaustive), then random scripts
         let mut cuts = vec![];
         let mut off = 0;
-        for f in &frames {
+        for f in frames.iter() {
             cuts.extend([off + 1, off + 4, off + 20.min(f.len())]);
             off += f.len();
             cuts.push(off);
@@ -1752,6 +1792,14 @@ fn gen_c06(o: &mut Out, r: &mut Rng, d: &GDict, tier: &str) {
             o.line(&format!("senc {}", vec![format!("a{}", k); total / k + 1].join(",")));
         }
         for _ in 0..(if thorough { 200 } else { 40 }) {
+            o.line(&format!("senc {}", random_wscript(r, total)));
+        }
+        // a stream that fails part way (the peer went away), then the same message to a stream that is fine: exactly the
+        // message's encoding, nothing left over from the attempt before
+        for _ in 0..3 {
+            let k = r.below(total as u64) as usize;
+            o.line(&format!("senc {}{}", if k == 0 { String::new() } else { format!("a{},", k) }, ["f", "a0"][k % 2]));
+            o.line("senc -");
             o.line(&format!("senc {}", random_wscript(r, total)));
         }
     }
@@ -2962,9 +3010,18 @@ fn gen_c16(o: &mut Out, r: &mut Rng, tier: &str, extra: &[String]) {
         for k in 0..n_unknown {
             o.case("unknown name");
             let m = message(r, d, 3, 2);
-            let mut ls = vec![];
-            m.ops(r, &mut ls);
-            o.lines(&ls);
+            if k % 3 == 1 {
+                // the message comes off the wire (padding octets and reserved flag bits as the peer chose them) and has
+                // not been touched yet: a failing call must not change what it encodes to either
+                let mut rr = Rng::new(r.next());
+                let f = m.encode(&mut Some(&mut rr));
+                o.line(&format!("new {} {} {} {} {}", m.cmd, m.app, m.flags, m.hbh, m.e2e));
+                o.line(&format!("decode {}", hex(&f)));
+            } else {
+                let mut ls = vec![];
+                m.ops(r, &mut ls);
+                o.lines(&ls);
+            }
             o.line("enc");
             o.line("len");
             o.line("dump");
